@@ -32,13 +32,13 @@ def schedules(ctx, binary, consts, tag):
             break
 
 
-def free(ctx, binary, g, k, nommap=False):
+def free(ctx, binary, g, k, nommap=False, later=False):
     fout = ctx.path("stub_trace.ndjson")
     if os.path.exists(fout):
         os.remove(fout)
     env = {"VERIF_OUT": fout, "VERIF_G": str(g), "VERIF_K": str(k)}
     if nommap:
-        env["VERIF_NOMMAP"] = "1"
+        env["VERIF_NOMMAP"] = "later" if later else "1"
     rc, out = ctx.run_bin(binary, "^TestVerifStubFree$", env=env, timeout=600, args=["-test.v"])
     if nommap and rc == 0 and "--- SKIP" in out:
         ctx.note("executable mappings cannot be refused in this environment (no seccomp): public Acquire on the fallback path not exercised: " + out[-200:])
@@ -60,7 +60,7 @@ def free(ctx, binary, g, k, nommap=False):
         return
     if nommap:
         viah = len([e for e in evs if e["ev"] == "region" and not e["err"] and e["src"] == "acquire-holder"])
-        if viah == 0 or any(e["ev"] == "region" and not e["err"] and e["src"] == "acquire" for e in evs):
+        if viah == 0 or (not later and any(e["ev"] == "region" and not e["err"] and e["src"] == "acquire" for e in evs)):
             raise vlib.Broken("executable mappings were refused but public Acquire did not (only) use the reserve: %d regions from the reserve" % viah)
         ctx.note("executable mappings refused (seccomp): %d regions granted by the public Acquire from the built-in reserve, written, executed" % viah)
     ngranted = len([e for e in evs if e["ev"] == "region" and not e["err"]])
@@ -70,6 +70,10 @@ def free(ctx, binary, g, k, nommap=False):
     # binding self-test: overlap two regions -> must be rejected
     bad = [dict(e) for e in evs]
     regs = [e for e in bad if e["ev"] == "region" and not e["err"] and e["src"] == "holder"]
+    if len(regs) < 2:      # (the reserve was used up by the public Acquire already)
+        regs = [e for e in bad if e["ev"] == "region" and not e["err"] and e["src"] == "acquire-holder"]
+    if len(regs) < 2:
+        raise vlib.Broken("fewer than two regions from the reserve: nothing to overlap in the self-test")
     regs[1]["lo"] = regs[0]["lo"]
     p2 = os.path.join(ctx.specdir(), "trace.ndjson")
     vlib.write_ndjson(p2, bad)
@@ -125,9 +129,11 @@ def run(ctx):
     if not q:
         schedules(ctx, binary, {"P": "{1, 2}", "Sizes": "{1, 2, 3}", "K": 2, "R": 5}, "2 procs x 2 requests, sizes {1,2,3}, reserve 5")
         schedules(ctx, binary, {"P": "{1, 2, 3}", "Sizes": "{2}", "K": 1, "R": 5}, "3 procs x 1 request, size 2, reserve 5")
-    free(ctx, binary, 4, 8 if q else 40)
+    free(ctx, binary, 8, 40 if q else 200)
     # the same with executable mappings REFUSED for the whole process: the public Acquire itself must fall back to the reserve
     free(ctx, binary, 4, 8 if q else 20, nommap=True)
+    # ... and refused only AFTER the first hundred requests were served from executable mappings
+    free(ctx, binary, 4, 40 if q else 100, nommap=True, later=True)
     ctx.cov["exhaustive"] = True
     ctx.cov["rule"] = ("every interleaving of Load/Finish of the bounded fallback model replayed on the real acquireFromHolder "
                        "through the holder.loaded hook (reserve shrunk to R*48 bytes so exhaustion is reached); free-running "
